@@ -282,6 +282,34 @@ def all_choice_trees(d, root):
     return out
 
 
+def _tree_rules(t):
+    """the rule a tree (nested [label, children]) gives each of its labels, as a frozenset of (label, sorted children)"""
+    ch = {}
+    for n in tnodes(t):
+        if n[1]:
+            ch[n[0]] = tuple(sorted(c[0] for c in n[1]))
+    for n in tnodes(t):
+        if not n[1]:
+            ch.setdefault(n[0], ())
+    return frozenset(ch.items())
+
+
+def _choice_rule_sets(d, root):
+    """for every choice function (one rule per label): its restriction to the labels reachable from root"""
+    keys = sorted(d)
+    out = set()
+    for combo in itertools.product(*[sorted(d[k]) for k in keys]):
+        c = dict(zip(keys, combo))
+        seen, todo = set(), [root]
+        while todo:
+            x = todo.pop()
+            if x not in seen:
+                seen.add(x)
+                todo.extend(c[x])
+        out.add(frozenset((x, tuple(sorted(c[x]))) for x in seen))
+    return out
+
+
 def tup(t):
     return (t[0], tuple(tup(c) for c in t[1]))
 
@@ -651,6 +679,10 @@ def gen_composed(rng):
                 ops.append(["ver", rng.choice(labels)])
             elif y < 0.7:
                 ops.append(["rue"])
+            elif y < 0.78:
+                # CDrop of Tree/WithEquiv.v: the cached pruned dictionary is thrown away without an add
+                # (`self._pruned_dict = None`, what a copy made without the cache / an un-pickled database has)
+                ops.append(["drop"])
             else:
                 smallest = int(rng.random() < (0.1 if iterative else 0.5))
                 ops.append(["node", smallest, rng.randrange(1 << 30), rng.randint(0, 3)])
@@ -902,6 +934,17 @@ def oracle(case, res):
         probs = [p for t in out for p in check_tree_all(t, d, case["root"], what="bfsgen")]
         # anything other than the known open finding is reported first
         other = [p for p in probs if not p.startswith("bfsgen: one label receives two different rules")]
+        if not other and len(out) < case["K"]:
+            # COMPLETENESS (an oracle fact, holds on the unchanged code also where the open finding shows): the VALID
+            # trees the generator yields realise exactly the choice functions of the dictionary - compared as rule
+            # sets {label -> chosen children} restricted to the labels reachable from the root (the breadth-first
+            # trees expand a label at another occurrence than the depth-first reference trees do)
+            valid = [t for t in out if not check_tree_all(t, d, case["root"], what="bfsgen")]
+            got = {_tree_rules(t) for t in valid}
+            exp = _choice_rule_sets(d, case["root"])
+            if got != exp:
+                other = ["bfsgen: the valid trees yielded do not realise exactly the choice functions of the dictionary: "
+                         "missing %r, extra %r" % (sorted(map(sorted, exp - got))[:2], sorted(map(sorted, got - exp))[:2])]
         return (other or probs or [None])[0]
     if m == "ifinder":
         v = ref_lfp(d, [case["root"]])
@@ -1188,6 +1231,8 @@ def classify(case, res):
                     tags.append("composed:node_%s" % {1: "tree", 2: "notfound", 3: "invalid", 0: "error"}[ob[0][1][0]])
             if any(ob[3][0] == 1 for ob, op in zip(out, case["ops"]) if op[0] in ("hs", "node", "ver", "rue")):
                 tags.append("composed:query_with_cache")
+            if any(op[0] == "drop" and i > 0 and out[i - 1][3][0] == 1 for i, op in enumerate(case["ops"][:len(out)])):
+                tags.append("composed:live_cache_dropped")
             if any(ob[2] for ob in out):
                 tags.append("composed:some_verified")
         return sorted(set(tags))
@@ -1279,4 +1324,9 @@ def extra_checks(ctx):
 # translator tie (DESIGN.md 10.9): what the regenerated definitions add to the level
 LEVEL_NOTE += (
     ' The per-rule tests of prune, iterative_prune and iterative_proof_tree_finder are RE-TRANSLATED from tree_searcher.py on every run and the model is proved to branch on exactly those expressions (C05_prune_test_is_source, C05_iterative_test_is_source, C05_finder_test_is_source; Tree/GenBridge.v); each regenerated definition is evaluated against the source expression on random arguments every run (harness/gen_selftest.py). The loops around the tests are tied by the correspondence only.'
+)
+
+# strengthening of the oracles (CLAUSES.md G.1 item 10)
+RULE += (
+    ' bfsgen: besides validity of every tree, the VALID trees must realise exactly the choice functions of the dictionary (as rule sets restricted to the labels reachable from the root) - completeness, decided whenever fewer than K trees came out; composed histories contain cache-drop operations (CDrop: _pruned_dict = None without an add, 8% of the queries).'
 )
